@@ -4,7 +4,7 @@ import ElysModel.Drv.Hist
 import ElysModel.Ledger.Amm
 open Lean
 namespace Elys.Drv.AmmH
-open Elys.Amm
+open Elys.AmmBook
 
 structure S where
   pools : List (String × Nat) := []     -- pool address → id
